@@ -1,9 +1,12 @@
 #!/bin/bash
-# usage: seedmatrix.sh [tier] : run every seeded change against the check of its own property
+# usage: seedmatrix.sh [tier] [parallel] : run every seeded change against the check of its own property
 # (scratch copies; /repo and the evidence of the real tree are untouched); result table in seeded/RESULTS.txt
-T=${1:-quick}; cd "$(dirname "$0")"; out=seeded/RESULTS.txt; : > $out.tmp
-for d in seeded/*/; do n=$(basename $d); id=${n%%-*}; [ -f $d/patch.diff ] || continue
-  r=$(LINES_MAX=400 ./seedtest.sh $id $d/patch.diff $T 2>&1)
+T=${1:-quick}; P=${2:-5}; cd "$(dirname "$0")"; out=seeded/RESULTS.txt; : > $out.tmp
+one() { n=$1; T=$2; id=${n%%-*}; [ -f seeded/$n/patch.diff ] || exit 0
+  r=$(LINES_MAX=400 MUT_TIMEOUT=${MUT_TIMEOUT:-1500} ./seedtest.sh $id seeded/$n/patch.diff $T 2>&1)
   rc=$(echo "$r" | grep -o 'rc=[0-9]*' | tail -1); key=$(echo "$r" | grep -m1 'key:' | sed 's/^ *key: *//' | cut -c1-140)
-  echo "$n $T $rc ${key}" | tee -a $out.tmp
-done; mv $out.tmp $out
+  echo "$n $T $rc ${key}"; }
+export -f one
+ls seeded | grep '^C[0-9]' | xargs -P $P -I{} bash -c "one {} $T" >> $out.tmp
+sort $out.tmp > $out; rm -f $out.tmp
+grep -vc ' rc=1 ' $out | sed 's/^/not detected: /'
